@@ -52,6 +52,14 @@ def gen_cases(tier, seed):
         n3, b3 = allp[(i * 11 + 5) % len(pairs)]
         eager = (i % 9 == 0) and n <= 8
         cost = 1.0 + n / 40.0
+        if i % 6 == 1 and n >= 2:
+            # generators configured for residual-adaptive refinement (no refinement step happens here): n usable points
+            # followed by inactive pre-allocated slots; mini-batching serves the usable ones once per epoch
+            # (batch sizes dividing n only: with b not dividing n the clamped last batch of an epoch reaches into the
+            # inactive slots, a behaviour no property statement speaks about - see DESIGN section 7)
+            bdiv = max(k_ for k_ in range(1, n + 1) if n % k_ == 0 and k_ <= max(b, 1))
+            for kind in ("ode_rar", "statio1_rar"):
+                cases.append(dict(kind=kind, n=n, b=bdiv, n2=n2, b2=b2, n3=n3, b3=b3, keys=keys, eager=False, cost=cost, x64=True))
         for kind in ("ode", "statio2", "nonstatio1", "nonstatio2", "obs", "param"):
             cases.append(dict(kind=kind, n=n, b=b, n2=n2, b2=b2, n3=n3, b3=b3, keys=keys,
                               eager=eager, cost=cost * (2 if "non" in kind else 1), x64=True))
@@ -74,10 +82,13 @@ def _uniq(keys):
 
 
 class Stream:
-    def __init__(self, rec, name, store, b, tag):
+    def __init__(self, rec, name, store, b, tag, usable=None):
         ks = _keys(store)
         self.ok = len(set(ks)) == len(ks)
-        self.chk = EpochChecker(ks, b, name) if self.ok else None
+        if usable is not None and self.ok:
+            self.chk = EpochChecker(ks[:usable], b, name, full_store=ks)
+        else:
+            self.chk = EpochChecker(ks, b, name) if self.ok else None
         self.rec, self.name, self.tag = rec, name, tag
         if not self.ok:
             rec.count("streams_skipped_nondistinct_store")
@@ -111,6 +122,30 @@ def run_case(case, rec):
     kind, n, b = case["kind"], case["n"], case["b"]
     for key in case["keys"]:
         mode = "eager" if case["eager"] else "jit"
+        if kind in ("ode_rar", "statio1_rar"):
+            extra = 3 + n % 4
+            if kind == "ode_rar":
+                d = dict(kind="ode", key=key, nt=n + extra, bt=b, tmin=-1.0, tmax=2.0, nt_start=n,
+                         rar=dict(start_iter=10 ** 6, update_every=3, sample_size_times=4, selected_sample_size_times=1))
+            else:
+                d = dict(kind="statio", key=key, n=n + extra, b=b, dim=1, min_pts=[-1.0], max_pts=[1.0], nb=None, bb=None,
+                         n_start=n, rar=dict(start_iter=10 ** 6, update_every=3, sample_size_omega=4, selected_sample_size_omega=1))
+            try:
+                g = guard.call(gens.make_generator, d)
+            except guard.Unsupported as u:
+                rec.unsupp("%s: %s" % (kind, u.reason))
+                return
+            step = jax.jit(lambda gg: gg.get_batch())
+            store = (lambda gg: gg.times) if kind == "ode_rar" else (lambda gg: gg.omega)
+            s_ = Stream(rec, "usable points of a refinement-enabled generator", store(g), b, (kind, "usable", n, b, key, mode),
+                        usable=n)
+            rec.count("streams_with_refinement_enabled")
+            for k in range(4 * (-(-n // b)) + 1):
+                g, batch = guard.call(step, g)
+                rec.count("get_batch_calls_%s" % mode)
+                s_.feed(batch.temporal_batch if kind == "ode_rar" else batch.inside_batch, store(g))
+            s_.finish("epoch/%s" % kind)
+            continue
         if kind in ("ode", "statio2", "nonstatio1", "nonstatio2"):
             if kind == "ode":
                 d = dict(kind="ode", key=key, nt=n, bt=b, tmin=-1.0, tmax=2.0)
